@@ -36,10 +36,18 @@ def func_lines(path):
 def main():
     d = sys.argv[1]
     want = sys.argv[2] if len(sys.argv) > 2 else ''
-    seen = set()
+    seen, started, returned = set(), set(), set()
     for f in glob.glob(os.path.join(d, '*.json')):
-        for fn, ln in json.load(open(f)):
+        rec = json.load(open(f))
+        for fn, ln in rec['lines']:
             seen.add((fn, ln))
+        started.update(tuple(x) for x in rec.get('started', []))
+        returned.update(tuple(x) for x in rec.get('returned', []))
+    never = sorted(started - returned)
+    if never and not want:
+        print('functions entered but never left by a return (every call raised): %d' % len(never))
+        for fn, ln, q in never:
+            print('   %s:%d %s' % (fn, ln, q))
     root = os.path.join(REPO, 'yabgp')
     tot = hit = 0
     rows = []
